@@ -29,7 +29,10 @@ pub struct Accepted {}
 //@@ type file=fe2o3-amqp-types/src/transaction/mod.rs kind=struct name=TransactionalState
 //@@ subst `crate::messaging::Outcome` => `Outcome` rule=R11
 //@@ end
-pub enum Outcome { Accepted(Accepted), Rejected(Rejected), Other }
+pub struct Released {}
+#[verifier::external_body]
+pub struct Modified { _p: u8 }
+pub enum Outcome { Accepted(Accepted), Rejected(Rejected), Released(Released), Modified(Modified), Other }
 /// DeliveryState with the variants that matter here (R11)
 pub enum DeliveryState { Accepted(Accepted), Rejected(Rejected), Declared(Declared), TransactionalState(TransactionalState), Other }
 pub enum ControllerSendError { LinkStateError(LinkStateError), Detached(DetachError), Rejected(Rejected), NonTerminalDeliveryState, IllegalDeliveryState, MessageEncodeError, Send(SendError) }
@@ -269,6 +272,39 @@ impl Transaction {
     ensures
         r is Ok ==> final(recver).inner.disposed@ == old(recver).inner.disposed@.push((delivery, None::<bool>,
             DeliveryState::TransactionalState(TransactionalState { txn_id: self.declared.txn_id, outcome: Some(outcome) }))),   // [C18.controller.retire-carries-txn-id] a transactional retirement disposes the delivery with a transactional-state naming this transaction and the chosen outcome, unsettled
+//@@ end
+//@@ fn file=fe2o3-amqp/src/transaction/mod.rs impl=`~TransactionRetirement:TransactionBase` name=accept
+//@@ generics
+//@@ nowhere
+//@@ param delivery : DeliveryInfo
+//@@ ret Result<(), DispositionError>
+//@@ subst `async move {` => `{` rule=R3
+//@@ spec
+    ensures
+        r is Ok ==> final(recver).inner.disposed@ == old(recver).inner.disposed@.push((delivery, None::<bool>,
+            DeliveryState::TransactionalState(TransactionalState { txn_id: self.declared.txn_id, outcome: Some(Outcome::Accepted(Accepted {})) }))),   // [C18.controller.accept-under-txn] a transactional accept retires the delivery with `accepted` under THIS transaction's id
+//@@ end
+//@@ fn file=fe2o3-amqp/src/transaction/mod.rs impl=`~TransactionRetirement:TransactionBase` name=release
+//@@ generics
+//@@ nowhere
+//@@ param delivery : DeliveryInfo
+//@@ ret Result<(), DispositionError>
+//@@ subst `async move {` => `{` rule=R3
+//@@ spec
+    ensures
+        r is Ok ==> final(recver).inner.disposed@ == old(recver).inner.disposed@.push((delivery, None::<bool>,
+            DeliveryState::TransactionalState(TransactionalState { txn_id: self.declared.txn_id, outcome: Some(Outcome::Released(Released {})) }))),   // [C18.controller.release-under-txn]
+//@@ end
+//@@ fn file=fe2o3-amqp/src/transaction/mod.rs impl=`~TransactionRetirement:TransactionBase` name=modify
+//@@ generics
+//@@ nowhere
+//@@ param delivery : DeliveryInfo
+//@@ ret Result<(), DispositionError>
+//@@ subst `async move {` => `{` rule=R3
+//@@ spec
+    ensures
+        r is Ok ==> final(recver).inner.disposed@ == old(recver).inner.disposed@.push((delivery, None::<bool>,
+            DeliveryState::TransactionalState(TransactionalState { txn_id: self.declared.txn_id, outcome: Some(Outcome::Modified(modified)) }))),   // [C18.controller.modify-under-txn]
 //@@ end
 }
 
